@@ -597,6 +597,13 @@ func judgeIn(debug bool, routes []route, method, esc string, o observed) (class,
 	return class + "/debug-logging-on", what + " [middleware.Debug = true]", determined
 }
 
+// afterHistory marks a failure that the same request does not show on a fresh instance: the answer
+// depends on requests served earlier by the same handler, which the property excludes (the handler
+// that runs is determined by the description and the request alone).
+func afterHistory(class, what string, n int) (string, string) {
+	return class + "/after-earlier-requests", fmt.Sprintf("%s [after %d earlier requests on the same handler; alone on a fresh handler the request is answered as demanded]", what, n)
+}
+
 // judge decides one observation. Returns class ("" = satisfied), text, and whether the case was determined.
 func judge(routes []route, method, esc string, o observed) (class, what string, determined bool) {
 	up := strings.ToUpper(method)
